@@ -599,3 +599,126 @@ Proof.
   exists [Load 0; Clock 0 (Some i64_max); Cas 0; Load 0; Clock 0 (Some 5); Cas 0].
   eexists. eexists. split; [vm_compute; reflexivity|]. split; vm_compute; reflexivity.
 Qed.
+
+
+(* ---------------- real-time order across threads ---------------- *)
+
+Lemma nth_upd_same {A} (l : list A) n x y : nth_error l n = Some y -> nth_error (upd_nth n x l) n = Some x.
+Proof.
+  revert n; induction l as [|a r IH]; intros [|n] H; cbn [nth_error upd_nth] in *; try discriminate; auto.
+Qed.
+Lemma nth_upd_other {A} (l : list A) n m x : n <> m -> nth_error (upd_nth n x l) m = nth_error l m.
+Proof.
+  revert n m; induction l as [|a r IH]; intros [|n] [|m] H; cbn [nth_error upd_nth]; auto; try congruence.
+Qed.
+
+(* what thread [t] has obtained since a state in which it was between calls and `last` was L0 *)
+Definition since (L0 : Z) (out0 : list Z) (t : nat) (s : state) : Prop :=
+  L0 <= last s /\
+  exists th newer, nth_error (threads s) t = Some th /\ t_out th = newer ++ out0 /\
+    Forall (fun v => L0 < v) newer /\
+    match t_pc th with Idle => True | Loaded l => L0 <= l | Computed l _ => L0 <= l end.
+
+Lemma since_step B NM L0 out0 t s lb s' :
+  0 <= B -> B + Z.of_nat NM < i64_max ->
+  Inv B NM s -> since L0 out0 t s -> gstep B s lb = Some s' -> since L0 out0 t s'.
+Proof.
+  intros HB Hg I (HL & th & newer & Hn & Ho & Hf & Hp) Hs.
+  unfold gstep in Hs. destruct (label_ok B lb) eqn:Hok; [|discriminate]. unfold since.
+  assert (Hmono : forall u thu l cur, nth_error (threads s) u = Some thu -> t_pc thu = Computed l cur ->
+                                      last s = l -> last s < cur).
+  { intros u thu l cur Hu Hpc El. pose proof (inv_threads _ _ _ I) as Hth. rewrite Forall_forall in Hth.
+    apply nth_error_In in Hu. specialize (Hth _ Hu). unfold thread_ok in Hth. rewrite Hpc in Hth. lia. }
+  destruct lb as [u|u c|u]; cbn [step] in Hs;
+    destruct (nth_error (threads s) u) as [thu|] eqn:Eu; try discriminate.
+  - (* Load *)
+    destruct (t_pc thu) eqn:Epu; try discriminate. destruct (t_todo thu); [discriminate|].
+    injection Hs as <-. unfold set_thread. cbn [last threads]. split; [exact HL|].
+    destruct (Nat.eq_dec u t) as [->|Hne].
+    + rewrite Hn in Eu. injection Eu as <-. eexists. exists newer.
+      split; [eapply nth_upd_same; exact Hn|]. cbn [t_out t_pc]. auto.
+    + exists th, newer. rewrite nth_upd_other by exact Hne. auto.
+  - (* Clock *)
+    destruct (t_pc thu) eqn:Epu; try discriminate.
+    injection Hs as <-. unfold set_thread. cbn [last threads]. split; [exact HL|].
+    destruct (Nat.eq_dec u t) as [->|Hne].
+    + rewrite Hn in Eu. injection Eu as <-. eexists. exists newer.
+      split; [eapply nth_upd_same; exact Hn|]. cbn [t_out t_pc]. rewrite Epu in Hp. auto.
+    + exists th, newer. rewrite nth_upd_other by exact Hne. auto.
+  - (* Cas *)
+    destruct (t_pc thu) as [|l|l cur] eqn:Epu; try discriminate.
+    destruct (Z.eqb_spec (last s) l) as [El|Nl]; injection Hs as <-.
+    + pose proof (Hmono _ _ _ _ Eu Epu El) as Hlt. cbn [last threads]. split; [lia|].
+      destruct (Nat.eq_dec u t) as [->|Hne].
+      * rewrite Hn in Eu. injection Eu as <-. eexists. exists (cur :: newer).
+        split; [eapply nth_upd_same; exact Hn|]. cbn [t_out t_pc]. rewrite Ho.
+        split; [reflexivity|]. split; [|exact Logic.I]. constructor; [|exact Hf]. rewrite Epu in Hp. lia.
+      * exists th, newer. rewrite nth_upd_other by exact Hne. auto.
+    + unfold set_thread. cbn [last threads]. split; [exact HL|].
+      destruct (Nat.eq_dec u t) as [->|Hne].
+      * rewrite Hn in Eu. injection Eu as <-. eexists. exists newer.
+        split; [eapply nth_upd_same; exact Hn|]. cbn [t_out t_pc]. auto.
+      * exists th, newer. rewrite nth_upd_other by exact Hne. auto.
+Qed.
+
+Lemma sched_ok_app B l1 l2 : sched_ok B (l1 ++ l2) = true -> sched_ok B l1 = true /\ sched_ok B l2 = true.
+Proof. unfold sched_ok. rewrite forallb_app. apply andb_true_iff. Qed.
+
+(* Every value a thread obtains from calls it starts after a state s1 exceeds `last s1`, hence
+   (C18_inv) every value handed out to ANY thread before s1: a call that starts after another
+   call has returned gets a strictly larger timestamp. *)
+Lemma c18_call_order B N M ls1 ls2 s1 s2 t th1 th2 :
+  guard B N M (ls1 ++ ls2) ->
+  run step (init N M) ls1 = Some s1 -> nth_error (threads s1) t = Some th1 -> t_pc th1 = Idle ->
+  run step s1 ls2 = Some s2 -> nth_error (threads s2) t = Some th2 ->
+  exists newer, t_out th2 = newer ++ t_out th1 /\ Forall (fun v => last s1 < v) newer /\
+                (forall v, In v (handed_out s1) -> v <= last s1).
+Proof.
+  intros (HB & Hg & Hok) Hr1 Hn1 Hp1 Hr2 Hn2.
+  apply sched_ok_app in Hok as [Hok1 Hok2].
+  pose proof (inv_run _ _ _ _ _ HB Hg Hok1 Hr1) as I1.
+  rewrite (run_gstep B) in Hr2 by exact Hok2.
+  assert (H : Inv B (N * M) s2 /\ since (last s1) (t_out th1) t s2).
+  { apply (run_invariant _ _ (gstep B) (fun s => Inv B (N * M) s /\ since (last s1) (t_out th1) t s)) with (ls := ls2) (s := s1).
+    - intros s lb s' [I S] Hs. split; [eapply inv_step; eassumption|eapply since_step; eassumption].
+    - split; [exact I1|]. split; [lia|]. exists th1, []. rewrite Hp1. repeat split; auto.
+    - exact Hr2. }
+  destruct H as [_ (_ & th & newer & Hn & Ho & Hf & _)]. rewrite Hn2 in Hn. injection Hn as <-.
+  exists newer. split; [exact Ho|]. split; [exact Hf|].
+  intros v Hv. destruct (c18_inv B N M ls1 s1) as (H1 & _); [repeat split; assumption|exact Hr1|].
+  apply H1. exact Hv.
+Qed.
+
+(* ---------------- the two-phase acceptor ---------------- *)
+
+Lemma max_from_spec l : forall m, m <= max_from m l /\ Forall (fun v => v <= max_from m l) l.
+Proof.
+  induction l as [|x r IH]; intros m; cbn [max_from]; [split; [lia|constructor]|].
+  destruct (IH (Z.max m x)) as [H1 H2]. split; [lia|]. constructor; [lia|exact H2].
+Qed.
+
+Lemma fold_max_from_spec ls : forall m,
+  m <= fold_left max_from ls m /\ Forall (Forall (fun v => v <= fold_left max_from ls m)) ls.
+Proof.
+  induction ls as [|l r IH]; intros m; cbn [fold_left]; [split; [lia|constructor]|].
+  destruct (IH (max_from m l)) as [H1 H2]. destruct (max_from_spec l m) as [H3 H4].
+  split; [lia|]. constructor; [|exact H2].
+  eapply Forall_impl; [|exact H4]. cbv beta. intros; lia.
+Qed.
+
+Lemma all_above_iff m l : all_above m l = true <-> Forall (fun v => m < v) l.
+Proof.
+  induction l as [|x r IH]; cbn [all_above]; [split; [constructor|reflexivity]|].
+  destruct (Z.ltb_spec m x) as [Hlt|Hge].
+  - rewrite IH. split; [intros H; constructor; assumption|intros H; apply Forall_cons_iff in H; apply H].
+  - split; [discriminate|]. intros H. apply Forall_cons_iff in H as [H _]. lia.
+Qed.
+
+Lemma phase_ok_sound firsts seconds : phase_ok firsts seconds = true ->
+  forall f a s b, In f firsts -> In a f -> In s seconds -> In b s -> a < b.
+Proof.
+  unfold phase_ok. rewrite forallb_forall. intros H f a s b Hf Ha Hs Hb.
+  specialize (H _ Hs). apply all_above_iff in H. rewrite Forall_forall in H. specialize (H _ Hb).
+  destruct (fold_max_from_spec firsts 0) as [_ Hm]. rewrite Forall_forall in Hm. specialize (Hm _ Hf).
+  rewrite Forall_forall in Hm. specialize (Hm _ Ha). lia.
+Qed.
